@@ -271,6 +271,10 @@ class DriverUnavailable(Exception):
     pass
 
 
+class CaseTimeout(BaseException):
+    """one implementation call ran far longer than any case of this check should (raised from SIGALRM)"""
+
+
 # ---------------------------------------------------------------------------------------------
 # known findings
 # ---------------------------------------------------------------------------------------------
